@@ -1434,12 +1434,12 @@ func checkFrameLimits(c *Ctx, w *zworld) {
 				if !ok {
 					continue
 				}
-				var other ssa.Value
+				var other, mine ssa.Value
 				switch {
 				case fromLength(cmp.X, 0):
-					other = cmp.Y
+					other, mine = cmp.Y, cmp.X
 				case fromLength(cmp.Y, 0):
-					other = cmp.X
+					other, mine = cmp.X, cmp.Y
 				default:
 					continue
 				}
@@ -1451,7 +1451,7 @@ func checkFrameLimits(c *Ctx, w *zworld) {
 					if !isRet || len(ret.Results) == 0 || isNilConst(ret.Results[len(ret.Results)-1]) || len(sb.Preds) != 1 {
 						continue
 					}
-					lt := z.term(lengthV)
+					lt := z.term(mine) // the value compared: the decoded length, or the join it reaches the test through
 					facts := z.condFacts(cmp, side == 0)
 					c.check(entails(facts, leq(linConst(256*1024+1), lt, 0)), "O3", "recvPacket refuses only frames beyond the limit", p.Pos(cmp.Pos()), "refused: length > maxMsgLength",
 						"a frame of exactly maxMsgLength bytes — which the peer's sendPacket accepts — is refused as too long: the session ends on a legal packet (a full NAME batch, a full DATA chunk)")
